@@ -120,3 +120,24 @@ pub fn message_id_of(req: &[u8]) -> Option<u64> {
     let e = rest.find('"')?;
     rest[..e].parse().ok()
 }
+
+/// A child process of a harness must not outlive it: if the check is stopped from outside (a time limit of whoever runs
+/// it), the code under test would otherwise go on running on its own - and some of it never ends by itself.
+pub fn die_with_parent_std(cmd: &mut std::process::Command) {
+    use std::os::unix::process::CommandExt as _;
+    unsafe {
+        cmd.pre_exec(|| {
+            libc::prctl(libc::PR_SET_PDEATHSIG, libc::SIGKILL);
+            Ok(())
+        });
+    }
+}
+
+pub fn die_with_parent(cmd: &mut tokio::process::Command) {
+    unsafe {
+        cmd.pre_exec(|| {
+            libc::prctl(libc::PR_SET_PDEATHSIG, libc::SIGKILL);
+            Ok(())
+        });
+    }
+}
